@@ -32,7 +32,7 @@ def _spec(params):
     return {tuple(int(x) for x in k.split(",")): v for k, v in params.items()}
 
 
-def run(sx, topo, order, rots, spec):
+def run(sx, topo, order, rots, spec, regrade=False):
     cells = g1.TOPOLOGIES[topo]
     mesh, blocks = g1.build_mesh(cells, order, rots)
     chops = g1.place_chops(sx, blocks, _spec(spec))
@@ -41,6 +41,16 @@ def run(sx, topo, order, rots, spec):
     fams = g1.families(blocks)
     fam_of = {d: k for k, f in enumerate(fams) for d in f}
     tag = f"{topo}"
+    if outcome == "ok" and regrade:
+        # "whenever writing succeeds": also the second time the same mesh is graded / written
+        first = {i: g1.written_counts(sx, blk) for i, blk in blocks.items()}
+        again = g1.grade(mesh, len(cells))
+        sx.prove(again == "ok", "grading the same mesh a second time succeeds like the first", f"C01:regrade:outcome:{tag}",
+                 info={"second": again})
+        if again == "ok":
+            conds = [a == b for i, blk in blocks.items() for a, b in zip(first[i], g1.written_counts(sx, blk))]
+            sx.prove(sx.all(conds), "the second grading writes the same counts as the first", f"C01:regrade:counts:{tag}")
+        tag = f"{topo}:second"
     if outcome == "ok":
         # (a) wires on the same geometric edge carry the same count
         conds = []
@@ -86,14 +96,16 @@ def _axes_sym(n, axes, fixed_block=0):
 def jobs(tier, seed):
     js = []
 
-    def add(topo, order, rots, spec, tagx=""):
-        js.append({"name": f"{topo}|order={''.join(map(str, order))}|rots={rots}{tagx}", "fn": "run",
-                   "params": {"topo": topo, "order": order, "rots": rots, "spec": spec},
+    def add(topo, order, rots, spec, tagx="", regrade=False):
+        js.append({"name": f"{topo}|order={''.join(map(str, order))}|rots={rots}{tagx}" + ("|graded twice" if regrade else ""),
+                   "fn": "run", "params": {"topo": topo, "order": order, "rots": rots, "spec": spec, "regrade": regrade},
                    "budget_s": 150 if tier == "quick" else 1500, "max_paths": 6000 if tier == "quick" else 200000})
 
     n = {k: len(v) for k, v in g1.TOPOLOGIES.items()}
     if tier == "quick":
         add("row2", [0, 1], [0, 0], _all_sym(2))
+        add("row2", [0, 1], [0, 17], _all_sym(2), regrade=True)
+        add("L", [2, 0, 1], [0, 0, 3], _axes_sym(3, [0, 1]), "|sym-axes=[0, 1]", regrade=True)
         add("row2", [1, 0], [0, 5], _all_sym(2))
         add("row2", [0, 1], [0, 13], _all_sym(2))
         add("row2", [0, 1], [7, 22], _all_sym(2))
@@ -116,6 +128,11 @@ def jobs(tier, seed):
             add("row2", [0, 1], [0, r], _all_sym(2))
             add("diag-edge", [1, 0], [0, r], _all_sym(2))
         add("row2", [1, 0], [3, 17], _all_sym(2))
+        for r in (0, 6, 17, 21):
+            add("row2", [0, 1], [0, r], _all_sym(2), regrade=True)
+        for order in ([0, 1, 2], [2, 0, 1]):
+            add("L", order, [0, 0, 3], _axes_sym(3, [0, 1]), "|sym-axes=[0, 1]", regrade=True)
+            add("row3", order, [0, 11, 0], _axes_sym(3, [0]), "|sym-axes=[0]", regrade=True)
         add("diag-vertex", [0, 1], [0, 0], _all_sym(2))
         for topo in ("row3", "L"):
             for order in itertools.permutations(range(3)):
